@@ -7,7 +7,7 @@ ALL = [f"C{i:02d}" for i in range(1, 21)]
 CHECKS = {
  "C19": dict(
     level=("proof", "Class invariant and contracts of all five DDEHistory entry points (constructor in both variants, update, _grow, "
-            "__call__) are discharged by an SMT solver from verification conditions generated on every run from the current source "
+            "__call__) and of the factory BaseBackend.get_hist_func (constructor used through its contract) are discharged by an SMT solver from verification conditions generated on every run from the current source "
             "text; the invariant is inductive over every method, so the interpolation/copy/refusal clauses hold after ANY sequence "
             "of updates and queries, for all buffer sizes and times. A bounded native run of the same clauses on the real class "
             "adds dtype/shape/aliasing coverage and is not counted as proof.", "5 C19"),
@@ -26,7 +26,8 @@ CHECKS = {
  "C03": dict(
     level=("other", "Proved core + bounded shell. Deductive (unbounded in steps, cadence, state): the real _solve_euler/_solve_heun loops (ODE and "
             "DDE variants) return exactly the Euler/Heun iterates in the stated rows, call the vector field with the step counter, feed the history "
-            "through DDEHistory.update's contract; BaseBackend.run builds the stated time axis; Base._solve dispatches by name. Bounded: "
+            "through DDEHistory.update's contract; BaseBackend.run builds the stated time axis; Base._solve dispatches by name; is_integration_adaptive is true exactly for the solvers that do "
+            "not run those loops; _index_state_var selects exactly the variable's columns. Bounded: "
             "CircuitTemplate.run against spec iterates on a (T, dt, dts, cutoff, solver, vectorize) grid and adaptive solvers against a tight reference.", "5 C03"),
     note="Trusted: pyvc encoding (floats as reals, one representative component, value semantics of the vector field), z3/cvc5, "
          "spec_rhs/spec_fixed_step, pandas/scipy.",
